@@ -875,7 +875,7 @@ void TasmanianSparseGrid::setAnisotropicRefinement(TypeDepth type, int min_growt
     int outs = base->getNumOutputs();
     if (outs == 0) throw std::runtime_error("ERROR: calling setAnisotropicRefinement() for a grid that has no outputs");
     if (base->getNumLoaded() == 0) throw std::runtime_error("ERROR: calling setAnisotropicRefinement() for a grid with no loaded values");
-    if ((output < -1) || (output >= outs)) throw std::invalid_argument("ERROR: calling setAnisotropicRefinement() with invalid output");
+    if ((output < -1) || (output >= outs) || (isGlobal() && (output == -1))) throw std::invalid_argument("ERROR: calling setAnisotropicRefinement() with invalid output");
     if ((!level_limits.empty()) && (level_limits.size() != (size_t) dims)) throw std::invalid_argument("ERROR: setAnisotropicRefinement() requires level_limits with either 0 or dimenions entries");
 
     if (!level_limits.empty()) llimits = level_limits;
@@ -899,7 +899,7 @@ void TasmanianSparseGrid::estimateAnisotropicCoefficients(TypeDepth type, int ou
     int outs = base->getNumOutputs();
     if (outs == 0) throw std::runtime_error("ERROR: calling estimateAnisotropicCoefficients() for a grid that has no outputs");
     if (base->getNumLoaded() == 0) throw std::runtime_error("ERROR: calling estimateAnisotropicCoefficients() for a grid with no loaded values");
-    if ((output < -1) || (output >= outs)) throw std::invalid_argument("ERROR: calling estimateAnisotropicCoefficients() with invalid output");
+    if ((output < -1) || (output >= outs) || (isGlobal() && (output == -1))) throw std::invalid_argument("ERROR: calling estimateAnisotropicCoefficients() with invalid output");
 
     if (isSequence()){
         get<GridSequence>()->estimateAnisotropicCoefficients(type, output, weights);
@@ -927,7 +927,7 @@ void TasmanianSparseGrid::setSurplusRefinement(double tolerance, int output, con
     int outs = base->getNumOutputs();
     if (outs == 0) throw std::runtime_error("ERROR: calling setSurplusRefinement() for a grid that has no outputs");
     if (base->getNumLoaded() == 0) throw std::runtime_error("ERROR: calling setSurplusRefinement() for a grid with no loaded values");
-    if ((output < -1) || (output >= outs)) throw std::invalid_argument("ERROR: calling setSurplusRefinement() with invalid output");
+    if ((output < -1) || (output >= outs) || (isGlobal() && (output == -1))) throw std::invalid_argument("ERROR: calling setSurplusRefinement() with invalid output");
     if (tolerance < 0.0) throw std::invalid_argument("ERROR: calling setSurplusRefinement() with invalid tolerance (must be non-negative)");
     if ((!level_limits.empty()) && (level_limits.size() != (size_t) dims)) throw std::invalid_argument("ERROR: setSurplusRefinement() requires level_limits with either 0 or dimenions entries");
 
